@@ -23,6 +23,9 @@ def run(ctx, rep):
     runloop.r12p(ctx, rep)
     runloop.r12q(ctx, rep)
     runloop.r12v(ctx, rep)
+    runloop.r12w(ctx, rep)
+    runloop.r12x(ctx, rep)
+    runloop.r12y(ctx, rep)
     runloop.r12r(ctx, rep)
     runloop.r12s(ctx, rep)
     runloop.r13g(ctx, rep, rule="R12t")
